@@ -30,13 +30,14 @@ Pass == UNCHANGED <<vars, failed, skip>> /\ Keep
 SkipRest(why) == /\ skip' = TRUE /\ failed' = failed /\ PrintT("@SKIP@" \o ToString(sc) \o ":" \o why)
                  /\ UNCHANGED vars /\ Keep
 Step(nxt) == /\ con' = nxt /\ failed' = FALSE /\ skip' = skip /\ Keep
-             /\ UNCHANGED <<cap, ws, npub, pend, cnt, act>>
+             /\ UNCHANGED <<cap, pf, npub, pend, cnt, act>>
 
 Delta(old, new) == SubSeq(new.wire, Len(old.wire) + 1, Len(new.wire))
-ObsOk(e, nxt) == \A c \in All : /\ e.infl[c] = nxt[c].fl
+Infl(cs) == IF cs.fl = <<>> THEN <<>> ELSE <<cs.fl[1]>>
+ObsOk(e, nxt) == \A c \in All : /\ e.infl[c] = Infl(nxt[c])
                                 /\ e.wire[c] = Delta(con[c], nxt[c])
                                 /\ e.closed[c] = nxt[c].closed
-AllFraming(nxt) == \A c \in All : FramingOk(nxt[c], ws)
+AllFraming(nxt) == \A c \in All : FramingOk(nxt[c], pf.ws)
 \* why a predicted step is not what was observed (first reason that applies)
 Judge(e, nxt) == IF ~ObsOk(e, nxt) THEN "Mismatch" ELSE IF ~AllFraming(nxt) THEN "WholeUnits" ELSE "ok"
 Do(e, nxt) == LET j == Judge(e, nxt) IN IF j = "ok" THEN Step(nxt) ELSE Reject(j)
@@ -44,21 +45,32 @@ Do(e, nxt) == LET j == Judge(e, nxt) IN IF j = "ok" THEN Step(nxt) ELSE Reject(j
 TraceReset ==
   /\ IsEvent("reset")
   /\ con' = [c \in All |-> ConsInit]
-  /\ cap' = [c \in All |-> IF c \in Healthy THEN HCap ELSE Trace[l].n]
-  /\ ws' = Trace[l].ws /\ npub' = 0 /\ pend' = <<>> /\ cnt' = CntInit
+  /\ cap' = [c \in All |-> IF c \in Cons THEN Trace[l].n ELSE HCap]
+  /\ pf' = [ws |-> Trace[l].ws, enq |-> Trace[l].enq, dl |-> Trace[l].dl, two |-> Trace[l].two] /\ npub' = 0 /\ pend' = <<>> /\ cnt' = CntInit
   /\ act' = [name |-> "init"]
   /\ failed' = FALSE /\ skip' = FALSE /\ sc' = Trace[l].sc /\ l0' = l /\ bound' = Trace[l].boundUs
 
-\* a burst of enqueues P meets every consumer
-Burst2(e, P) ==
-  LET nxt == [c \in All |-> Enq(con[c], cap[c], P, e.wire[c])]
-  IN IF \E c \in All : EnqRacy(con[c], cap[c], P) THEN SkipRest("racy")
-     ELSE IF \E c \in All : EnqObserved(con[c], cap[c], P) /\ ~LegalAcc(e.wire[c], P, cap[c]) THEN Reject("IllegalDrop")
+\* the parts a healthy consumer was handed during the call, grouped into queue elements (el = sizes)
+RECURSIVE Group(_, _)
+Group(parts, sizes) == IF sizes = <<>> THEN <<>>
+                       ELSE <<SubSeq(parts, 1, sizes[1])>> \o Group(SubSeq(parts, sizes[1] + 1, Len(parts)), Tail(sizes))
+Units(e, h) == Group(e.wire[h], e.el[h])
+\* a burst of enqueued elements E meets the consumers in T; before the call the driver may have kept the
+\* writer of a stalled idle consumer busy with a null unit of its own (primed)
+Burst2(e, EA, EB) ==
+  LET pr(c) == IF c \in Cons THEN e.primed[c] ELSE <<>>
+      E(c) == IF c \in Other THEN EB ELSE EA
+      cn == [c \in All |-> IF pr(c) # <<>> THEN PrimeC(con[c], pr(c)) ELSE con[c]]
+      nxt == [c \in All |-> Enq(cn[c], cap[c], E(c), e.wire[c], TRUE)]
+  IN IF \E c \in Cons : pr(c) # <<>> /\ (~NeedsPrime(con[c]) \/ pr(c)[1].id # 0) THEN Reject("Mismatch")
+     ELSE IF \E c \in All : EnqRacy(cn[c], cap[c], E(c)) THEN SkipRest("racy")
+     ELSE IF \E c \in All : EnqObserved(cn[c], cap[c], E(c)) /\ ~LegalAcc(e.wire[c], E(c), cap[c]) THEN Reject("IllegalDrop")
      ELSE Do(e, nxt)
+HB == CHOOSE o \in Other : TRUE
 
 \* attaching the sessions writes the protocol preamble
 TraceJoin == /\ IsEvent("Join")
-             /\ IF skip \/ failed THEN Pass ELSE Burst2(Trace[l], Trace[l].wire[H])
+             /\ IF skip \/ failed THEN Pass ELSE Burst2(Trace[l], Units(Trace[l], H), Units(Trace[l], HB))
 
 TracePublish ==
   /\ IsEvent("Publish")
@@ -66,13 +78,16 @@ TracePublish ==
      IF skip \/ failed THEN Pass
      ELSE IF e.blocked THEN Reject("NoBlocking")
      ELSE IF e.callUs > bound \/ e.latUs > bound THEN Reject("Latency")
-     ELSE IF con[H].closed THEN SkipRest("healthy consumer gone")
-     ELSE Burst2(e, e.wire[H])
+     ELSE IF con[H].closed /\ \E c \in Cons : ~con[c].closed THEN SkipRest("healthy consumer gone")
+     ELSE Burst2(e, Units(e, H), <<>>)
 
 TraceStall == /\ IsEvent("Stall")
-              /\ LET e == Trace[l] c == e.c IN
-                 IF skip \/ failed THEN Pass
-                 ELSE Do(e, [con EXCEPT ![c] = IF @.closed THEN @ ELSE [@ EXCEPT !.open = FALSE]])
+              /\ LET e == Trace[l] c == e.c
+                     st == IF con[c].closed THEN con[c] ELSE [con[c] EXCEPT !.open = FALSE]
+                     pr == e.primed[c]
+                 IN IF skip \/ failed THEN Pass
+                    ELSE IF pr # <<>> /\ (~NeedsPrime(st) \/ pr[1].id # 0) THEN Reject("Mismatch")
+                    ELSE Do(e, [con EXCEPT ![c] = IF pr # <<>> THEN PrimeC(st, pr) ELSE st])
 
 TraceResume == /\ IsEvent("Resume")
                /\ LET e == Trace[l] c == e.c IN
@@ -93,14 +108,14 @@ TraceFire == /\ IsEvent("Fire")
                     can == ~con[c].closed /\ ~con[c].open /\ con[c].fl # <<>>
                 IN IF skip \/ failed THEN Pass
                    ELSE IF e.had # can THEN Reject("Mismatch")
-                   ELSE IF can /\ ~e.armed THEN Reject("NoWriteDeadline")
-                   ELSE Do(e, [con EXCEPT ![c] = IF can THEN CutC(@) ELSE @])
+                   ELSE IF can /\ pf.dl /\ ~e.armed THEN Reject("NoWriteDeadline")
+                   ELSE Do(e, [con EXCEPT ![c] = IF can /\ e.armed THEN CutC(@) ELSE @])
 
 \* calls that run under Group.mutex must return whatever the consumers do
 TraceSweep == /\ IsEvent("Sweep")
               /\ IF skip \/ failed THEN Pass
                  ELSE IF Trace[l].blocked THEN Reject("NoBlocking")
-                 ELSE Do(Trace[l], [c \in All |-> SweepC(con[c])])
+                 ELSE Do(Trace[l], [c \in All |-> IF c \in Other /\ ~pf.two THEN con[c] ELSE SweepC(con[c])])
 
 \* the publisher leaves / a publisher arrives: the call returns, and whatever it hands to the consumers
 \* (seen at the healthy one) meets their queues like any other burst
@@ -109,20 +124,34 @@ TracePubLeave == /\ IsEvent("PubLeave")
                     IF skip \/ failed THEN Pass
                     ELSE IF e.blocked THEN Reject("NoBlocking")
                     ELSE IF con[H].closed /\ \E c \in Cons : ~con[c].closed THEN SkipRest("healthy consumer gone")
-                    ELSE Burst2(e, e.wire[H])
+                    ELSE Burst2(e, Units(e, H), <<>>)
 TracePubArrive == /\ IsEvent("PubArrive")
                   /\ LET e == Trace[l] IN
                      IF skip \/ failed THEN Pass
                      ELSE IF e.blocked THEN Reject("NoBlocking")
                      ELSE IF ~e.ok THEN Reject("PubArrive")
                      ELSE IF con[H].closed /\ \E c \in Cons : ~con[c].closed THEN SkipRest("healthy consumer gone")
-                     ELSE Burst2(e, e.wire[H])
+                     ELSE Burst2(e, Units(e, H), <<>>)
+
+\* the other stream: its publisher and its consumer are served whatever the consumers of this one do
+TracePublishB ==
+  /\ IsEvent("PublishB")
+  /\ LET e == Trace[l] IN
+     IF skip \/ failed THEN Pass
+     ELSE IF e.blocked THEN Reject("NoBlocking")
+     ELSE IF e.callUs > bound \/ e.latUs > bound THEN Reject("Latency")
+     ELSE Burst2(e, <<>>, Units(e, HB))
+\* a call that looks at every group under the ServerManager lock
+TraceStat == /\ IsEvent("Stat")
+             /\ IF skip \/ failed THEN Pass
+                ELSE IF Trace[l].blocked THEN Reject("NoBlocking")
+                ELSE Burst2(Trace[l], <<>>, <<>>)
 
 TraceDrain ==
   /\ IsEvent("Drain")
   /\ LET e == Trace[l]
          nxt == [c \in All |-> IF con[c].closed THEN con[c] ELSE ResumeC(con[c])]
-         cut(c) == nxt[c].closed /\ ~Whole(nxt[c].wire, ws)
+         cut(c) == nxt[c].closed /\ ~Whole(nxt[c].wire, pf.ws)
      IN IF skip \/ failed THEN Pass
         ELSE IF Judge(e, nxt) # "ok" THEN Reject(Judge(e, nxt))
         ELSE IF \E c \in All :
@@ -134,7 +163,7 @@ TraceDrain ==
         ELSE Step(nxt)
 
 TraceNext == \/ TraceReset \/ TracePubArrive \/ TracePubLeave \/ TraceJoin \/ TracePublish \/ TraceStall \/ TraceResume
-             \/ TraceRead \/ TraceFire \/ TraceSweep \/ TraceDrain
+             \/ TraceRead \/ TraceFire \/ TraceSweep \/ TraceDrain \/ TracePublishB \/ TraceStat
 TraceSpec == TraceInit /\ [][TraceNext]_tvars
 HighWater == TLCSet(1, IF l > TLCGet(1) THEN l ELSE TLCGet(1))
 Accept == PrintT("@HW@" \o ToString(TLCGet(1)))
